@@ -59,6 +59,7 @@ def jobs(tier, seed):
     for n in (2, 3, 4):
         out.append({'family': 'state-construction-forms', 'kind': 'stateforms', 'n': n, 'vals': (0, 1, 2) if n == 4 and not th else (0, 1, 2, 3)})
     out.append({'family': 'game-factory-forms', 'kind': 'gameforms'})
+    out.append({'family': 'game-definition-reuse', 'kind': 'gamereuse'})
     out.append({'family': 'card-text', 'kind': 'cards1'})
     for k in range(8):
         out.append({'family': 'card-sequences', 'kind': 'cards2', 'part': (k, 8)})
@@ -275,6 +276,66 @@ def run_gameforms(job, R):
             if canon.snapshot(st) != ref:
                 R.viol.append(V('factory-form', f'FixedLimitSevenCardStud antes as {an}, stacks as {sn} differs', {'n': n}, f'{an}/{sn}'))
     R.sample = {'game': 'NoLimitTexasHoldem', 'antes': {'-1': 2}, 'blinds': [1, 2], 'stacks': 'generator'}
+
+
+def _layout_ref(form, n):
+    """documented meaning of a chip layout for n seats, or None where two keys of a mapping name the same seat"""
+    if isinstance(form, dict):
+        out = [0] * n
+        seen = set()
+        for k, v in form.items():
+            if not -n <= k < n:
+                return None
+            i = k % n
+            if i in seen:
+                return None
+            seen.add(i)
+            out[i] = v
+        return out
+    if isinstance(form, (list, tuple)):
+        return (list(form) + [0] * n)[:n]
+    return [form] * n
+
+
+def run_gamereuse(job, R):
+    """one game definition, several tables: game(stacks, n) for a sequence of player counts must give each table the state a
+    fresh definition gives it (a scalar means every seat, a negative position counts from that table's button)"""
+    import copy
+    pk = env.pokerkit
+    A = tuple(env.S.Automation)
+    ANTES = [0, 1, {-1: 2}, {1: 2}, [0, 2], {0: 1, -1: 3}]
+    BLINDS = [(1, 2), {0: 1, 1: 2}, {0: 1, 1: 2, -1: 4}, 2, {-1: 2}]
+    seqs = [q for k in (2, 3) for q in product((2, 3, 4), repeat=k)]
+    for gname, mk in [('NoLimitTexasHoldem', lambda a, b: (A, True, a, b, 2)), ('FixedLimitTexasHoldem', lambda a, b: (A, True, a, b, 2, 4)),
+                      ('PotLimitOmahaHoldem', lambda a, b: (A, True, a, b, 2))]:
+        G = getattr(pk, gname)
+        for af, bf, seq in product(ANTES, BLINDS, seqs):
+            game = G(*mk(copy.deepcopy(af), copy.deepcopy(bf)))
+            for step, n in enumerate(seq):
+                stacks = [20 + i for i in range(n)]
+                ra, rb = _layout_ref(af, n), _layout_ref(bf, n)
+                if ra is None or rb is None:
+                    break
+                try:
+                    ref = G(*mk(ra, rb))(list(stacks), n)
+                except ValueError:
+                    break
+                R.evals += 1
+                cfg = {'game': gname, 'antes': repr(af), 'blinds': repr(bf), 'player_counts': list(seq[:step + 1])}
+                try:
+                    st = game(list(stacks), n)
+                except Exception as exc:
+                    R.viol.append(V('game-reuse-acceptance', f'{gname}(antes={af!r}, blinds={bf!r}) used for tables of {seq[:step + 1]}: '
+                                    f'{type(exc).__name__}: {exc}', cfg, type(af).__name__ + '/' + type(bf).__name__))
+                    break
+                if step:
+                    R.classes.add(('gamereuse', gname, repr(af), repr(bf), seq[step - 1] < n))
+                if canon.snapshot(st) != canon.snapshot(ref):
+                    R.viol.append(V('game-reuse', f'{gname}(antes={af!r}, blinds={bf!r}) used for tables of {seq[:step + 1]} players in turn: the '
+                                    f'last table has antes {st.antes} blinds {st.blinds_or_straddles}, a fresh definition gives '
+                                    f'{ref.antes} / {ref.blinds_or_straddles}', cfg, type(af).__name__ + '/' + type(bf).__name__))
+                    break
+    R.sample = {'game': 'NoLimitTexasHoldem', 'antes': {'-1': 2}, 'blinds': [1, 2], 'player_counts': [2, 3]}
 
 
 # ------------------------------------------------------------------------------------------ (b) cards
@@ -614,7 +675,7 @@ class R_:
 
 
 RUN = {'values': run_values, 'stateforms': run_stateforms, 'gameforms': run_gameforms, 'cards1': run_cards1,
-       'cards2': run_cards2, 'cardops': run_cardops, 'layout': run_layout, 'layout-scalar': run_layout_scalar, 'arith': run_arith}
+       'cards2': run_cards2, 'cardops': run_cardops, 'layout': run_layout, 'layout-scalar': run_layout_scalar, 'arith': run_arith, 'gamereuse': run_gamereuse}
 
 
 def run_job(job):
